@@ -427,7 +427,12 @@ class Scheduler(object):
                 if aid not in w.pending:
                     continue
                 if w.status in ("paused", "pausing"):
-                    self.do(["request", self.K.choice(["resuming", "running"], "ops", "respond", aid)])
+                    if a["state"] == "paused" and not w.pause_req and self.K.u("ops", "child_alone", aid) < 0.35:
+                        # only the child execution is resumed; its running report is what wakes
+                        # the workflow (no resume request)
+                        self.stats["fault_child_resumed_alone"] = self.stats.get("fault_child_resumed_alone", 0) + 1
+                    else:
+                        self.do(["request", self.K.choice(["resuming", "running"], "ops", "respond", aid)])
             elif a["item"] is None and aid not in self.pended and w.status in ("running", "resuming", "pausing") \
                     and not w.cancel_req and self.coin("pending", aid):
                 # the action asks for input first (an inquiry): it reports pending and waits
